@@ -78,6 +78,8 @@ def _range_harness(make):
                            None if mod is None else mod.t, value.t)
         c.prove("ensures/result==spec", term_of(it, res) == spec)
         c.prove("ensures/result-is-bool", isinstance(res, bool) or (isinstance(res, Sym) and res.kind == "bool"))
+        if not isinstance(res, bool):
+            c.refute("twin/result==not-spec-must-fail", term_of(it, res) == z3.Not(spec))
 
     return harness
 
@@ -264,6 +266,8 @@ def u_check_captures(c):
     c.prove("no-raise", st == "ok")
     c.cover("return")
     c.prove("ensures/result==spec", term_of(it, res) == _cc_spec(it, n))
+    if res is False:
+        c.refute("twin/always-true-must-fail", _cc_spec(it, n))
 
 
 def _cc_bounded(c, n_el, n_vals):
